@@ -157,3 +157,9 @@ Definition select_crit (ra : bool) (gain pt ext : Q) (lib : list amp) : Q :=
             | _ => []
             end in
   qmin_list 1 (c1 ++ c2 ++ c3).
+(* distance of the fibre loss coefficient(s) to the Raman limit *)
+Definition raman_crit (prev : neigh) (max_lineic : Q) : Q :=
+  match prev with
+  | NFiber lcs => qmin_list 1 (map (fun y => qabs (y - max_lineic * (1 # 1000))) lcs)
+  | _ => 1
+  end.
